@@ -35,6 +35,8 @@ SPEC['explanation'] += ' T11.heap: the heap backend hooks change the list only t
 SPEC['decided'] += ['heap changed only through heapq', 'sub-list index comes from the scan', 'dropped sub-list is the emptied one']
 SPEC['explanation'] += ' T11.pq also rejects replacing the entry list wholesale outside __init__ (a filtered copy of a heap is not a heap).'
 SPEC['decided'] += ['entry list never replaced outside __init__']
+SPEC['explanation'] += ' T19t: BarrelList.pop never tests its index by truthiness (0 is a position).'
+SPEC['decided'] += ['index 0 is a position']
 MANIFEST = {
     'technique': 'must-pass-through and pairing analysis over all CFG paths (receiver-sensitive), layout agreement, who-may-write',
     'text': ('Decides structural necessary conditions of C10 on all paths: FIFO tie-breaking material (fresh monotone count on '
